@@ -261,12 +261,12 @@ PROPS['C05'] = {
 }
 
 PROPS['C08'] = {
-    'modules': ['c08', 'fattype'],
+    'modules': ['c08', 'fattype', ('c10', ['R10.2']), ('c17', ['T3b'])],
     'level': 'other',
     'quick_configs': ['default'],
     'thorough_configs': ALL,
     'controls': [],
-    'floors': {'default': {'X1': 3, 'X2': 4, 'X3': 8, 'X4': 2}},
+    'floors': {'default': {'X1': 3, 'X2': 4, 'X3': 8, 'X4': 2, 'R10.2': 1, 'T3b': 1}},
     'rule_text': 'obligations: the three FAT-entry classification tables (each over the whole raw-value domain, by '
                  'partition walk), one per FAT32 entry test (mask), per format constant and byte predicate, the two '
                  'read-modify-write sites, the skipping rule and the FAT-width table over all 2^32 cluster counts; '
@@ -319,12 +319,12 @@ PROPS['C15'] = {
 }
 
 PROPS['C01'] = {
-    'modules': ['c15', 'c01'],
+    'modules': ['c15', 'c01', ('c03', ['R3.7'])],
     'level': 'other',
     'quick_configs': ['default'],
     'thorough_configs': ALL,
     'controls': ['N1'],
-    'floors': {'default': {'N1': 6, 'R1.2': 6, 'R1.3': 1, 'R1.5': 6}},
+    'floors': {'default': {'N1': 6, 'R1.2': 6, 'R1.3': 1, 'R1.5': 6, 'R3.7': 1}},
     'rule_text': 'obligations: N1 instances (shared with C15), one per mutation site of create_file/create_dir/'
                  'rename_internal (must lie on the `name is free` arm), the emptiness guard of remove, the '
                  'publish-before-delete order of rename, and one per intermediate path lookup; non-trivial = dominance or '
